@@ -5,6 +5,7 @@ pub mod c_hist;
 pub mod c02;
 pub mod c06;
 pub mod c10;
+pub mod c09;
 
 pub fn meta(id: &str, tier: &str) -> Option<CheckMeta> {
     match id {
@@ -12,6 +13,7 @@ pub fn meta(id: &str, tier: &str) -> Option<CheckMeta> {
         "C02" => Some(c02::meta(tier)),
         "C06" => Some(c06::meta(tier)),
         "C10" => Some(c10::meta(tier)),
+        "C09" => Some(c09::meta(tier)),
         _ => None,
     }
 }
@@ -36,6 +38,7 @@ pub fn worker(ctx: &Ctx, res: &mut ShardResult) {
         "C02" => c02::worker(ctx, res),
         "C06" => c06::worker(ctx, res),
         "C10" => c10::worker(ctx, res),
+        "C09" => c09::worker(ctx, res),
         _ => panic!("unknown check"),
     }
 }
@@ -50,6 +53,7 @@ pub fn replay(path: &str) -> i32 {
         "C02" => c02::replay(&v["case"]),
         "C06" => c06::replay(&v["case"]),
         "C10" => c10::replay(&v["case"]),
+        "C09" => c09::replay(&v["case"]),
         _ => vec![format!("no replayer for {}", id)],
     };
     let _ = json!(null);
